@@ -19,7 +19,7 @@ from .tools import TOOLS
 
 class Built:
     __slots__ = ("tool", "ctx", "srcs", "fns", "S", "F", "P", "V", "outs", "handle",
-                 "outer", "result", "side")
+                 "outer", "result", "side", "advanced", "extra")
 
 
 def _matv(v):
@@ -215,3 +215,19 @@ def first_diff(xs, ys):
         i = min(len(xs), len(ys))
         return i, (xs[i] if i < len(xs) else None), (ys[i] if i < len(ys) else None)
     return None
+
+
+class HarnessError(RuntimeError):
+    """The harness' own scenario crashed: never a VIOLATION, always exit status 2."""
+
+
+def expect_return(outcome, bucket, case=None):
+    """A scenario coroutine records library exceptions as data and must itself return.
+    raise => bug in the harness (exit 2); deadlock/livelock => violation of the property."""
+    from .runner import Violation
+
+    if outcome[0] == "return":
+        return outcome[1]
+    if outcome[0] == "raise":
+        raise HarnessError(f"scenario crashed: {outcome[1]!r}") from outcome[1]
+    raise Violation(f"{bucket}/{outcome[0]}", repr(outcome), case=case)
